@@ -14,6 +14,8 @@ NEUTRALS = [{'name': 'guard with nested if already present: rename default var',
 
 # changes made by sub-agents that were given only the property text (see /verif/seeded/<id>/): each must stay reported
 SEEDED = [
+    {'name': 'seeded change C10-r4b', 'seed': 'C10-r4b', 'expect': '|F3-codes|'},
+    {'name': 'seeded change C10-r4a', 'seed': 'C10-r4a', 'expect': '|F4a|'},
     {'name': 'seeded change C10-r3', 'seed': 'C10-r3', 'expect': '|RESCALE|'},
     {'name': 'seeded change C10-r2', 'seed': 'C10-r2', 'expect': '|NONE-test|'},
     {'name': 'seeded change C10', 'seed': 'C10', 'expect': '|SIB-backfill|'},
